@@ -1,13 +1,15 @@
 #!/bin/bash
 # usage: harness/seed_refresh.sh <seed-name>...   -- re-runs the property's check against an archived seeded change after the check
-# was strengthened; keeps the first (missing) result in meta.json as checks_run_first and records the new one
+# was strengthened; keeps the first (missing) result in meta.json as checks_run_first and records the new one.
+# SEED_REPO=<scratch copy of the repository> patches that copy and runs the check against it (VERIF_REPO) instead of /repo.
 cd "$(dirname "$0")/.."
+R="${SEED_REPO:-/repo}"
 for n in "$@"; do
   d=seeded/$n; p=${n%%-*}
-  git -C /repo status --short | grep -q . && { echo "/repo not clean"; exit 2; }
-  git -C /repo apply "$PWD/$d/patch.diff" || { echo "$n: does not apply"; continue; }
-  out=$(timeout 900 ./check $p 2>&1 | grep -v "^KNOWN" | tail -2 | head -1)
-  git -C /repo checkout -q -- .
+  git -C "$R" status --short | grep -q . && { echo "$R not clean"; exit 2; }
+  git -C "$R" apply "$PWD/$d/patch.diff" || { echo "$n: does not apply"; continue; }
+  out=$(VERIF_REPO="$R" timeout 900 ./check $p 2>&1 | grep -v "^KNOWN" | tail -2 | head -1)
+  git -C "$R" checkout -q -- .
   /venv/bin/python - "$d/meta.json" "$p: $out" <<'PY'
 import json,sys
 m=json.load(open(sys.argv[1]))
